@@ -234,7 +234,7 @@ class Run:
             digest = outcome_digest(outcome)
             del outcome
             if rep >= 1 and 'C08' in self.props:
-                cens.append((census.instance_census(_roots(host)), census.container_census()))
+                cens.append((census.instance_census(_roots(host)), census.container_census(), census.caller_census(host)))
             self.events.append([i, 'repeat3', rep, classes[-1], digest, info['peer_n']])
         self.count('op:repeat3')
         if (h.spec.get('options') or {}).get('bem.enabled'):
@@ -242,11 +242,17 @@ class Run:
         self.shape.append(['repeat3', op['cfg'], None, classes[-1]])
         if 'C08' in self.props and len(cens) == 2 and classes == ['ok', 'ok', 'ok']:
             self.count('census:measured')
-            ((inst2, pay2, alive2), cont2), ((inst3, pay3, alive3), cont3) = cens
+            ((inst2, pay2, alive2), cont2, call2), ((inst3, pay3, alive3), cont3, call3) = cens
             fresh_objs = sorted(set(k for i_, k in alive3.items() if i_ not in alive2))
             g_inst = census.growth(inst2, inst3)
             g_cont = census.growth(cont2, cont3)
             g_pay = census.growth(pay2, pay3)
+            g_call = census.growth(call2, call3)
+            if g_call:
+                self.census_dirty = True
+                self.violate('C08', 'leak', 'caller-objects:%s' % g_call[0][0], i, {
+                    'abbr': op['abbr'], 'cfg': op['cfg'],
+                    'containers inside the caller\'s own cache / config objects grew between 2nd and 3rd identical call': g_call[:8]})
             if g_pay and not g_inst:
                 self.census_dirty = True
                 self.violate('C08', 'leak', 'payload:%s' % g_pay[0][0], i, {
@@ -319,14 +325,14 @@ class Run:
                     del host.cfgs[cid]
                 j += 1
             inst, pay, _alive = census.instance_census(_roots(host))
-            marks.append((inst, pay, census.container_census()))
+            marks.append((inst, pay, census.container_census(), census.caller_census(host)))
         self.count('op:soak_distinct')
         self.count('soak:distinct-calls', j)
         self.events.append([i, 'soak_distinct', j])
         self.shape.append(['soak_distinct', op['cfg'], None, 'ok'])
         if 'C08' not in self.props:
             return
-        for label, idx in (('instances', 0), ('payload', 1), ('containers', 2)):
+        for label, idx in (('instances', 0), ('payload', 1), ('containers', 2), ('caller-objects', 3)):
             a = census.growth(marks[0][idx], marks[1][idx])
             b = dict((k, (x, y)) for k, x, y in census.growth(marks[1][idx], marks[2][idx]))
             for k, x, y in a:
